@@ -29,6 +29,9 @@ THEOREMS = {
     "MG.Proofs.Lemmas.InPlaceBase": [
         "MG.C04V.inplace_on_base_seen_through_view",
     ],
+    "MG.Proofs.Lemmas.InPlaceWhere": [
+        "MG.C04W.inplace_on_owner_where_refines_numpy",
+    ],
     "MG.Proofs.Lemmas.InPlaceView": [
         "MG.C04V.inplace_through_view_refines_numpy",
     ],
